@@ -218,7 +218,7 @@ func c13Seq(c *fw.Ctx, i int) {
 	for k, pl := range payloads {
 		var out []byte
 		var err error
-		if pv, st := fw.Guard(func() { out, err = d.Unmarshal(append([]byte(nil), pl...)) }); pv != nil {
+		if pv, st := fw.Guard(func() { out, err = d.Unmarshal(fw.Exact(pl)) }); pv != nil {
 			c.Fail("C13/depacketizer/panic/"+fw.PanicFunc(st), fmt.Sprintf("AV1Depacketizer panicked on payloader output: %v", pv), wit2("stack", st))
 			return
 		}
@@ -242,7 +242,7 @@ func c13Seq(c *fw.Ctx, i int) {
 		var list [][]byte
 		var err error
 		if pv, st := fw.Guard(func() {
-			if _, err = pkt.Unmarshal(append([]byte(nil), pl...)); err != nil {
+			if _, err = pkt.Unmarshal(fw.Exact(pl)); err != nil {
 				return
 			}
 			if i%2 == 0 {
